@@ -18,6 +18,7 @@ structure Cur where
   sh : UInt64 := 0
   switches : Nat := 0
   res : RState Res.State := .ok (Res.init 1)
+  job : RState JobMap.St := .ok {}
 
 def wanted (sel : List String) (id : String) : Bool := sel.isEmpty || sel.contains id
 
@@ -33,10 +34,16 @@ def finish (sel : List String) (c : Cur) (e : EndInfo) : IO Unit := do
         viols := viols.push s!"V {c.idx} {id} {v}"
   let entered := tr.any (fun o => match o with | .enter .. => true | _ => false)
   let nt := if entered && c.switches ≥ 3 then 1 else 0
-  let (model, mlines) : String × List String := match c.res with
+  let (model1, ml1) : String × List String := match c.res with
     | .ok _ => ("ok", [])
     | .na _ => ("na", [])
     | .rejected ln why => ("Res", [s!"M {c.idx} Res line={ln} {why}"])
+  let (model2, ml2) : String × List String := match c.job with
+    | .ok _ => ("ok", [])
+    | .na _ => ("na", [])
+    | .rejected ln why => ("Job", [s!"M {c.idx} Job line={ln} {why}"])
+  let model := if model1 != "ok" && model1 != "na" then model1 else if model2 != "ok" && model2 != "na" then model2 else "ok"
+  let mlines := ml1 ++ ml2
   IO.println s!"RESULT {c.idx}{summary} model={model} obs={tr.length} lines={c.nlines} ph={c.ph} sh={c.sh} nt={nt}"
   for m in mlines do IO.println m
   for v in viols do IO.println v
@@ -59,7 +66,7 @@ partial def loop (h : IO.FS.Stream) (sel : List String) (c : Cur) : IO Unit := d
     loop h sel {}
   else
     let c := match parseRaw line with
-      | some rl => { c with res := ResMap.feed c.res (c.nlines + 1) rl }
+      | some rl => { c with res := ResMap.feed c.res (c.nlines + 1) rl, job := JobMap.feed c.job (c.nlines + 1) rl }
       | none => c
     match parseObs line with
     | some o => loop h sel { c with obs := c.obs.push o, nlines := c.nlines + 1 }
